@@ -145,6 +145,18 @@ SPECIAL = [
         {"name": "c1", "type": family.E(), "default": "A"}, {"name": "c2", "type": "E", "default": "B"}, {"name": "c3", "type": "E", "default": "C"}, {"name": "c4", "type": "E"},
         {"name": "p1", "type": {"type": "record", "name": "Pt", "fields": [{"name": "x", "type": "int"}]}, "default": {"x": -1}}, {"name": "p2", "type": "Pt", "default": {"x": 9}},
         {"name": "f1", "type": family.F(), "default": "ab"}, {"name": "f2", "type": "F", "default": "cd"}, {"name": "f3", "type": "F"}]}),
+    ("nested-defaults", {"type": "record", "name": "NDf", "fields": [
+        {"name": "k", "type": "int"},
+        {"name": "aa", "type": {"type": "array", "items": {"type": "array", "items": "int"}}, "default": [[1, 2], [3]]},
+        {"name": "ma", "type": {"type": "map", "values": {"type": "array", "items": "string"}}, "default": {"k": ["a", "b"]}},
+        {"name": "ra", "type": {"type": "record", "name": "Ra", "fields": [{"name": "xs", "type": {"type": "array", "items": "int"}}, {"name": "m", "type": {"type": "map", "values": "int"}}]},
+         "default": {"xs": [7, 8], "m": {"q": 1}}},
+        {"name": "am", "type": {"type": "array", "items": {"type": "map", "values": "int"}}, "default": [{"a": 1}, {"b": 2}]}]}),
+    ("null-namespace-in-union", {"type": "record", "name": "Outer", "namespace": "com.acme", "fields": [
+        {"name": "u", "type": ["null", {"type": "enum", "name": "Colour", "namespace": "", "symbols": ["RED", "GREEN"]},
+                               {"type": "record", "name": "Pt", "namespace": "", "fields": [{"name": "x", "type": "int"}]},
+                               {"type": "fixed", "name": "Fx", "namespace": "", "size": 1}, {"type": "enum", "name": "Colour", "symbols": ["BLUE"]}]},
+        {"name": "v", "type": ["null", "Colour", "string"]}]}),
     ("namespaced-union", {"type": "record", "name": "N", "namespace": "ns.x", "fields": [{"name": "u", "type": ["null", {"type": "enum", "name": "En", "symbols": ["A"]}, {"type": "fixed", "name": "other.Fx", "size": 1},
                                                                                                         {"type": "record", "name": "Rr", "fields": [{"name": "z", "type": "int"}]}, {"type": "array", "items": "int"}, {"type": "map", "values": "int"}, "string", "bytes", "double"]}]}),
 ]
@@ -174,6 +186,10 @@ def special_data(label, node, defs):
         return out
     if label == "map-keys":
         return [{"name": "n", "m": m, "after": 7} for m in ({}, {"name": 1}, {"after": 2, "m": 3}, {"": 4}, {"": 5, "x": 6}, {"é\"\\\n": 8}, {"k": 9, "name": 10, "after": 11})]
+    if label == "nested-defaults":
+        return [{"k": 1, "aa": [[9]], "ma": {"z": []}, "ra": {"xs": [], "m": {}}, "am": []}]
+    if label == "null-namespace-in-union":
+        return [{"u": "RED", "v": "BLUE"}, {"u": ("Colour", "GREEN"), "v": None}, {"u": ("com.acme.Colour", "BLUE"), "v": ("com.acme.Colour", "BLUE")}, {"u": {"x": 1}, "v": "s"}, {"u": b"z", "v": None}]
     if label == "same-type-different-defaults":
         return [{"c1": "C", "c2": "C", "c3": "A", "c4": "B", "p1": {"x": 1}, "p2": {"x": 2}, "f1": b"11", "f2": b"22", "f3": b"33"}]
     if label == "null-default":
